@@ -75,11 +75,11 @@ impl Property for C15 {
         "C15"
     }
     fn rule(&self) -> &'static str {
-        "case = (a) instance of either sense -> as_minimization_problem (twice) | (b) instance with removed constraints x 1..8 samples (ties, mixed feasibility) -> evaluate_samples -> best_feasible / best_feasible_unrelaxed | (c) hand-built SampleSet messages in the current encoding (feasible_relaxed + feasible) and in the 1.6 encoding (feasible = remaining constraints, deprecated feasible_unrelaxed = all, feasible_relaxed empty), passed through protobuf bytes, objectives one ulp apart and infinite; \
+        "case = (a) instance of either sense -> as_minimization_problem (twice) | (b) instance with removed constraints x 1..8 samples (ties, mixed feasibility) -> evaluate_samples -> best_feasible / best_feasible_unrelaxed | (c) hand-built SampleSet messages in the current encoding (feasible_relaxed + feasible) and in the 1.6 encoding (feasible = remaining constraints, deprecated feasible_unrelaxed = all, feasible_relaxed empty), passed through protobuf bytes, objectives one ulp apart and infinite, also 33..100 samples sharing three objective values with the ids of each value entry in scrambled order; \
          oracle = exact negation / brute force arg-best over the sample table; non-trivial = >=3 samples with mixed feasibility and relaxed set != unrelaxed set, or a maximisation instance; distinct = sha256(case)"
     }
     fn required_labels(&self) -> Vec<String> {
-        ["mode=minimization", "mode=evaluated-samples", "mode=handbuilt", "tie", "maximize", "legacy-1.6", "new-style", "none-feasible", "relaxed!=unrelaxed", "mixed-feasibility", "objectives-one-ulp-apart", "infinite-objective"].iter().map(|s| s.to_string()).collect()
+        ["mode=minimization", "mode=evaluated-samples", "mode=handbuilt", "tie", "maximize", "legacy-1.6", "new-style", "none-feasible", "relaxed!=unrelaxed", "mixed-feasibility", "objectives-one-ulp-apart", "infinite-objective", "many-samples-sharing-values-in-scrambled-id-order"].iter().map(|s| s.to_string()).collect()
     }
     fn cases(&self, tier: Tier) -> usize {
         match tier {
@@ -148,7 +148,11 @@ impl Property for C15 {
             1 => {
                 ctx.label("mode=evaluated-samples");
                 let regime = Regime::Dyadic;
-                let n = 1 + t.choice(8);
+                // a handful of samples, or (as a sampler with many reads returns them) 33..100 samples sharing three
+                // objective values, listed in a scrambled (not ascending) order of ids inside each value entry
+                let many = t.p(30);
+                let n = if many { *t.pick(&[33usize, 40, 64, 65, 100]) } else { 1 + t.choice(8) };
+                let many_seed = t.byte() as u64;
                 let unrelaxed = t.coin();
                 let tie = t.p(90);
                 let place: Vec<u8> = (0..8).map(|_| t.byte()).collect();
@@ -265,7 +269,11 @@ impl Property for C15 {
                 ctx.label("mode=handbuilt");
                 let legacy = t.coin();
                 ctx.label(if legacy { "legacy-1.6" } else { "new-style" });
-                let n = 1 + t.choice(8);
+                // a handful of samples, or (as a sampler with many reads returns them) 33..100 samples sharing three
+                // objective values, listed in a scrambled (not ascending) order of ids inside each value entry
+                let many = t.p(30);
+                let n = if many { *t.pick(&[33usize, 40, 64, 65, 100]) } else { 1 + t.choice(8) };
+                let many_seed = t.byte() as u64;
                 let unrelaxed = t.coin();
                 let mut pairs: Vec<(u64, f64)> = vec![];
                 let mut rel: BTreeMap<u64, bool> = BTreeMap::new();
@@ -282,6 +290,14 @@ impl Property for C15 {
                 }
                 for i in 0..n {
                     let id = base + i as u64 * 2;
+                    if many {
+                        let h = |k: u64| ((derived_coeff(many_seed ^ k, i as u64) * 16.0) as i64 + 64) as u64;
+                        pairs.push((id, [0.5, 1.0, 1.5][(h(1) % 3) as usize]));
+                        let fr = h(2) % 3 != 0;
+                        rel.insert(id, fr);
+                        all.insert(id, fr && h(3) % 2 == 0);
+                        continue;
+                    }
                     let o = match pool_kind {
                         0 => t.int_around(0, -3, 3) as f64 / 2.0,
                         1 => *t.pick(&near),
@@ -295,7 +311,26 @@ impl Property for C15 {
                 }
                 let mut ss = v1::SampleSet::default();
                 ss.sense = if maximize { SENSE_MAX } else { SENSE_MIN };
-                ss.objectives = Some(sampled_values(&pairs, t));
+                ss.objectives = Some(if many {
+                    ctx.label("many-samples-sharing-values-in-scrambled-id-order");
+                    let mut scrambled = pairs.clone();
+                    scrambled.sort_by_key(|(id, _)| ((derived_coeff(many_seed ^ 7, *id) * 16.0) as i64, *id));
+                    let mut sv = v1::SampledValues::default();
+                    for (id, v) in &scrambled {
+                        match sv.entries.iter_mut().find(|e| e.value == *v) {
+                            Some(e) => e.ids.push(*id),
+                            None => {
+                                let mut e = v1::sampled_values::SampledValuesEntry::default();
+                                e.value = *v;
+                                e.ids = vec![*id];
+                                sv.entries.push(e);
+                            }
+                        }
+                    }
+                    sv
+                } else {
+                    sampled_values(&pairs, t)
+                });
                 if legacy {
                     ss.feasible = rel.iter().map(|(k, v)| (*k, *v)).collect();
                     #[allow(deprecated)]
